@@ -232,6 +232,12 @@ def run(ctx):
 
     def impure(m, fn):
         for x in walk_shallow(fn):
+            # lazily evaluated user text: the value of a PEP 695 alias is computed on first access and raises NameError
+            # until every name it mentions is defined; eval() of a stringified hint likewise
+            if isinstance(x, ast.Attribute) and x.attr == '__value__' and isinstance(x.ctx, ast.Load):
+                return f'evaluates the lazily computed value of a type alias (.__value__) at {m.relpath}:{x.lineno}'
+            if isinstance(x, ast.Call) and dotted(x.func) == 'eval' and repo.resolve_name(m, x, 'eval').kind == 'builtin':
+                return f'evaluates user text (eval) at {m.relpath}:{x.lineno}'
             d = dotted(x) if isinstance(x, (ast.Attribute, ast.Name)) else None
             if d in IMPURE and not (isinstance(x, ast.Name) and repo.resolve_name(m, x, x.id).kind == 'local'):
                 if d in ('globals', 'import_module') and not isinstance(parent(x), ast.Call):
